@@ -548,6 +548,36 @@ impl Check for C04 {
                 }
             }
         });
+        // every vertex off the surface by more than half the width, while a miter tip, a square
+        // cap corner or a round join still reaches in (a quick reject that underestimates the
+        // stroke's extent shows)
+        run.bound("vertices off the surface", "3-vertex polylines over the 16 grid points translated so that every vertex lies 4.5-5 px or more outside the 36x36 surface (4 sides and a corner) x (square cap, miter limit 10) / (round cap, round join) x width 8".to_string());
+        run.par(g.len() * g.len(), |s, l| {
+            let (i0, i1) = (s / g.len(), s % g.len());
+            if i0 == i1 {
+                return;
+            }
+            for i2 in 0..g.len() {
+                if i2 == i1 {
+                    continue;
+                }
+                let pts = [g[i0], g[i1], g[i2]];
+                let (minx, maxx) = (pts.iter().map(|p| p.0).fold(f32::MAX, f32::min), pts.iter().map(|p| p.0).fold(f32::MIN, f32::max));
+                let (miny, maxy) = (pts.iter().map(|p| p.1).fold(f32::MAX, f32::min), pts.iter().map(|p| p.1).fold(f32::MIN, f32::max));
+                let path = PathSpec::new(vec![POp::M(pts[0].0, pts[0].1), POp::L(pts[1].0, pts[1].1), POp::L(pts[2].0, pts[2].1)]);
+                // translations that put the nearest vertex 4.75 px outside each side
+                let shifts = [(0.0, -maxy - 4.75), (0.0, 36.0 + 4.75 - miny), (-maxx - 4.75, 0.0), (36.0 + 4.75 - minx, 0.0), (-maxx - 4.75, -maxy - 4.75)];
+                for (k, (tx, ty)) in shifts.iter().enumerate() {
+                    if q && (i0 + i2 + k) % 2 == 1 {
+                        continue;
+                    }
+                    for (cap, join, miter) in [(2u8, 0u8, 10.0f32), (1, 1, 4.0)] {
+                        let st = StyleSpec { width: 8.0, cap, join, miter, dash: vec![], offset: 0. };
+                        account(run, 9700 + s, l, &path, &st, &[1., 0., 0., 1., *tx, *ty], false);
+                    }
+                }
+            }
+        });
         // many subpaths in one path
         run.bound("many subpaths", "100 and 300 short open / closed subpaths tiled over 36x36 in one path x 3 caps x 2 joins".to_string());
         run.par(2 * 3 * 2, |s, l| {
